@@ -302,6 +302,10 @@ def trace_props(op, why, viol=None):
             props |= set(m.group(1).split(",")) if m else {"C02"}
         return props or {"C02"}
     n = op.get("name", "")
+    if n == "cursor_all":
+        return {"C09"}
+    if n == "final_drop":
+        return {"C02"}
     if n in ("insert", "insert_key_value", "checked_insert"):
         return {"C01", "C12", "C03"}
     if n in ("get", "get_mut", "contains_key", "index", "index_mut", "remove", "get_key_value", "remove_entry"):
@@ -631,7 +635,7 @@ def jobs_for(pid, tier):
     table = {
         "C01": shaped(core) + tmap + tbig + thuge + deep("core", ["core"]),
         "C07": shaped(setcore + both("setbulk", ["bulk"], mode="set", consts={"MaxExtra": 1}, bigconsts={"Vers": [0]})) + tset + deep("setcore", ["core"], mode="set"),
-        "C09": shaped(both("cursor", ["cursor"])) + shaped(setcore) + tmap + tset + deep("cursor", ["cursor"]) + deep("setcore", ["core"], mode="set"),
+        "C09": shaped(both("cursor", ["cursor"])) + shaped(setcore) + tmap + tset + thuge + deep("cursor", ["cursor"]) + deep("setcore", ["core"], mode="set"),
         "C10": shaped(both("cursor", ["cursor"]) + core) + setcore + tmap + tset + deep("cursor", ["cursor"]) + deep("setcore", ["core"], mode="set"),
         "C11": both("entry", ["entry"]) + tmap + thuge + deep("entry", ["entry"]),
         "C12": core + both("entry", ["entry"]) + setcore + tmap + tset
@@ -674,7 +678,7 @@ def jobs_for(pid, tier):
                + both("serde", ["serde"]) + both("setserde", ["serde"], mode="set")
                # "destroyed exactly once overall", "no operation ... destroys a slot that does not hold a live element": also on
                # the way out of a panicking callback (what the ledger reports there counts for C02 as well as for C04)
-               + inj_sweeps,
+               + inj_sweeps + thuge,
         "C03": prof(shaped(core) + both("entry", ["entry"]) + shaped(both("bulk", ["bulk"], bigconsts={"MaxExtra": 1})) + shaped(setcore)
                     + shaped(both("setbulk", ["bulk"], mode="set", consts={"MaxExtra": 1}, bigconsts={"Vers": [0]})), "asan", "miri") + thuge,
     }
